@@ -108,7 +108,7 @@ class CallMixin:
             return out
         if k == 'cls':
             cname = fv.a[0]
-            ev = self.emit(st, 'NEW', node, name=cname, args=args, kwargs=kwargs)
+            ev = self.emit(st, 'NEW', node, name=cname, args=args, kwargs=kwargs, starkw=starkw)
             res = [(V('new', cname, ev.seq), st)]
             return self.after_call(ev, res)
         if k == 'extfn':
